@@ -426,6 +426,7 @@ package generic
 //   other encoded size -> the buffer becomes  head ++ varint(new length) ++ tail  in a NEW allocation;
 //   new length 0 of a tagged element -> tag and length are dropped:  head-before-the-tag ++ tail.
 // The result is exactly the change of the buffer size, which is what updateByteLen hands to the next layer.
+// (The byte-level clauses are `local`: proved here, not handed to callers — no caller needs them and they are heavy.)
 // The byte pool: a slice taken from it is owned by the taker alone until it is given back (trusted; sync.Pool is not modelled).
 //@ spec NewBytesFromPool
 //@   trusted
@@ -446,24 +447,25 @@ package generic
 //@   requires win: self != nil && windowif(true, self.v, self.l) && !samerg(self, self.v)
 //@   ensures valid: windowif(true, self.v, self.l) && !samerg(self, self.v)
 //@   ensures delta: r0 == self.l - old(self.l)
+//@   ensures mem: (!same(self.v, old(self.v)) ==> fresh(self.v)) && (same(self.v, old(self.v)) ==> self.l == old(self.l))
 //@   ensures nohdr: !old(fhdr(self, pos, tagged)) ==> r0 == 0 && same(self.v, old(self.v))
 //@   ensures inplace: old(fhdr(self, pos, tagged) && fsame(self, pos, tagged, diff)) ==> r0 == 0 && same(self.v, old(self.v))
-//@   ensures inplaceenc: old(fhdr(self, pos, tagged) && fsame(self, pos, tagged, diff)) ==> forall k :: 0 <= k && k < old(fll(self, pos, tagged)) ==> \
+//@   ensures local inplaceenc: old(fhdr(self, pos, tagged) && fsame(self, pos, tagged, diff)) ==> forall k :: 0 <= k && k < old(fll(self, pos, tagged)) ==> \
 //@       byteat(self.v, pos + old(ftl(self, pos, tagged)) + k) == protowire.venc(uint64(old(fnew(self, pos, tagged, diff))), k)
 //@   ensures grow: old(fhdr(self, pos, tagged) && !fsame(self, pos, tagged, diff) && !fdrop(self, pos, tagged, diff)) ==> fresh(self.v) && \
 //@       r0 == protowire.vsize(uint64(old(fnew(self, pos, tagged, diff)))) - old(fll(self, pos, tagged))
-//@   ensures growhead: old(fhdr(self, pos, tagged) && !fsame(self, pos, tagged, diff) && !fdrop(self, pos, tagged, diff)) ==> \
+//@   ensures local growhead: old(fhdr(self, pos, tagged) && !fsame(self, pos, tagged, diff) && !fdrop(self, pos, tagged, diff)) ==> \
 //@       forall i :: 0 <= i && i < pos + old(ftl(self, pos, tagged)) ==> byteat(self.v, i) == old(byteat(self.v, i))
-//@   ensures growenc: old(fhdr(self, pos, tagged) && !fsame(self, pos, tagged, diff) && !fdrop(self, pos, tagged, diff)) ==> \
+//@   ensures local growenc: old(fhdr(self, pos, tagged) && !fsame(self, pos, tagged, diff) && !fdrop(self, pos, tagged, diff)) ==> \
 //@       forall k :: 0 <= k && k < protowire.vsize(uint64(old(fnew(self, pos, tagged, diff)))) ==> \
 //@       byteat(self.v, pos + old(ftl(self, pos, tagged)) + k) == protowire.venc(uint64(old(fnew(self, pos, tagged, diff))), k)
-//@   ensures growtail: old(fhdr(self, pos, tagged) && !fsame(self, pos, tagged, diff) && !fdrop(self, pos, tagged, diff)) ==> \
+//@   ensures local growtail: old(fhdr(self, pos, tagged) && !fsame(self, pos, tagged, diff) && !fdrop(self, pos, tagged, diff)) ==> \
 //@       forall i :: 0 <= i && i < old(self.l) - pos - old(ftl(self, pos, tagged)) - old(fll(self, pos, tagged)) ==> \
 //@       byteat(self.v, pos + old(ftl(self, pos, tagged)) + protowire.vsize(uint64(old(fnew(self, pos, tagged, diff)))) + i) == \
 //@       old(byteat(self.v, pos + ftl(self, pos, tagged) + fll(self, pos, tagged) + i))
 //@   ensures drop: old(fhdr(self, pos, tagged) && fdrop(self, pos, tagged, diff)) ==> fresh(self.v) && r0 == 0 - old(ftl(self, pos, tagged)) - old(fll(self, pos, tagged))
-//@   ensures drophead: old(fhdr(self, pos, tagged) && fdrop(self, pos, tagged, diff)) ==> forall i :: 0 <= i && i < pos ==> byteat(self.v, i) == old(byteat(self.v, i))
-//@   ensures droptail: old(fhdr(self, pos, tagged) && fdrop(self, pos, tagged, diff)) ==> \
+//@   ensures local drophead: old(fhdr(self, pos, tagged) && fdrop(self, pos, tagged, diff)) ==> forall i :: 0 <= i && i < pos ==> byteat(self.v, i) == old(byteat(self.v, i))
+//@   ensures local droptail: old(fhdr(self, pos, tagged) && fdrop(self, pos, tagged, diff)) ==> \
 //@       forall i :: 0 <= i && i < old(self.l) - pos - old(ftl(self, pos, tagged)) - old(fll(self, pos, tagged)) ==> \
 //@       byteat(self.v, pos + i) == old(byteat(self.v, pos + ftl(self, pos, tagged) + fll(self, pos, tagged) + i))
 //@   modifies self.Node.v, self.Node.l, bytes(self.v, self.l)[pos + ftl(self, pos, tagged) : pos + ftl(self, pos, tagged) + fll(self, pos, tagged)] if fhdr(self, pos, tagged)
@@ -477,6 +479,7 @@ package generic
 //@   requires win: self != nil && windowif(true, self.v, self.l) && !samerg(self, self.v)
 //@   ensures valid: windowif(true, self.v, self.l) && !samerg(self, self.v)
 //@   ensures delta: r0 == self.l - old(self.l)
+//@   ensures mem: (!same(self.v, old(self.v)) ==> fresh(self.v)) && (same(self.v, old(self.v)) ==> self.l == old(self.l))
 //@   ensures none: !(0 <= base && base < at && at <= old(self.l)) ==> r0 == 0 && same(self.v, old(self.v))
 //@   modifies self.Node.v, self.Node.l, bytes(self.v, self.l)[0:self.l]
 //@   loop 1
@@ -497,6 +500,7 @@ package generic
 //@   modifies self.Node.v, self.Node.l, bytes(self.v, self.l)[0:self.l]
 //@   loop 1
 //@     invariant win: windowif(true, self.v, self.l) && !samerg(self, self.v)
+//@     invariant mem: (!same(self.v, old(self.v)) ==> fresh(self.v)) && (same(self.v, old(self.v)) ==> self.l == old(self.l))
 //@     invariant diff: diffLen == self.l - originLen
 //@     invariant i: 0 - 1 <= i && i < len(address)
 //@     decreases i + 1
